@@ -97,6 +97,11 @@ def families(thorough):
               ['Ps', 'S', 'Ps2', 'S', 'Ps3', 'S', 'Bs3', 'E', 'Bs2', 'E', 'S']):
         for cache in (2, 3):
             s.append(Case(t, stop='X', cache=cache))
+    # a Parse the SERVER rejects (the relation does not exist yet), the cause goes away, the same text is prepared again -- by the same client
+    # under the same or another name
+    for t in (['Pny', 'S', 'mktable', 'Pny', 'Bs', 'E', 'S'], ['Pny', 'S', 'mktable', 'Pny2', 'Bs2', 'E', 'S'], ['Pny', 'Bs', 'E', 'S', 'mktable', 'Pny', 'Bs', 'E', 'S']):
+        for cache in (2, 4):
+            s.append(Case(t, stop='X', cache=cache))
     F['cache'] = s
     # -- messages that are not what the protocol allows at that point (symbolic code byte, short bodies)
     s = []
